@@ -388,7 +388,13 @@ class Interp:
                 rel = rel + '/__init__.py'
             else:
                 rel = rel + '.py'
+            if not os.path.exists(os.path.join(REPO, rel)):
+                stub = ModuleVal(dotted, rel)          # compiled extension / generated module: no source to interpret
+                stub.is_stub = True
+                self.modules[dotted] = stub
+                return stub
             m = ModuleVal(dotted, rel)
+            m.env.vars['__name__'] = dotted
             self.modules[dotted] = m
             tree = parse_source(rel)
             m.tree = tree
@@ -611,6 +617,12 @@ class Interp:
 
     def st_Expr(self, st, env, module, qual):
         if isinstance(st.value, ast.Constant):
+            return
+        if isinstance(st.value, ast.Yield):
+            v = self.eval(st.value.value, env, module) if st.value.value is not None else None
+            if not hasattr(self, 'yields'):
+                raise CheckerError('yield outside a generator under contract')
+            self.yields.append(v)
             return
         self.eval(st.value, env, module)
 
@@ -1549,6 +1561,9 @@ class Interp:
         if f is bool and len(args) == 1:
             return self.truth(args[0], node)
         if callable(f) and not isinstance(f, (Z,)):
+            h = getattr(self, 'lib_contracts', {}).get(getattr(f, '__module__', None) and (f.__module__.split('.')[0], getattr(f, '__name__', '')))
+            if h is not None:
+                return h(self, args, kwargs, node)
             # library function: only with concrete arguments
             if all(self._concrete(a) for a in args) and all(self._concrete(a) for a in kwargs.values()):
                 try:
@@ -1715,9 +1730,10 @@ class Interp:
         try:
             if isinstance(f.node, ast.Lambda):
                 return self.eval(f.node.body, env, f.module)
-            for n in ast.walk(f.node):
-                if isinstance(n, (ast.Yield, ast.YieldFrom)) :
-                    return self.run_generator(f, env)
+            if f is not self.target:
+                for n in ast.walk(f.node):
+                    if isinstance(n, (ast.Yield, ast.YieldFrom)):
+                        return self.run_generator(f, env)
             try:
                 self.exec_block(f.node.body, env, f.module, f.qualname)
             except _Return as r:
@@ -1801,6 +1817,9 @@ class Interp:
     def bi_range(self, args, kwargs, node):
         if all(isinstance(a, int) for a in args):
             return range(*args)
+        mk = getattr(self, 'sym_range', None)
+        if mk is not None:
+            return mk(self, args, node)
         raise CheckerError('symbolic range needs a loop invariant')
 
     def _bools(self, items):
@@ -1838,6 +1857,9 @@ class Interp:
         items = self.iterate(args[0], node) if len(args) == 1 else list(args)
         if all(isinstance(x, int) for x in items):
             return max(items)
+        if len(items) == 2 and all(self._intish(x) for x in items):
+            a, b = self.ex(items[0]), self.ex(items[1])
+            return self.wrap(z3.If(a >= b, a, b))
         raise CheckerError('max of symbolic values unsupported')
 
     def bi_min(self, args, kwargs, node):
